@@ -10,6 +10,7 @@ unconditional writers), the full statement is kept as a `def … : Prop`, refute
 Helper lemmas: `MesonModel/Det/Lemmas.lean`, `MesonModel/Det/FsLemmas.lean`.
 -/
 import MesonModel.Det.FsLemmas
+import MesonModel.Det.EnvLemmas
 
 namespace MesonModel.Props.C06
 open MesonModel.Det List
@@ -614,5 +615,148 @@ example :
     (configure fs outs).get "a.pc".toList = some ⟨"Name: a\n".toList, 3, 420⟩ ∧
     (configure fs outs).get "cc.json".toList = some ⟨"[]".toList, 13, 420⟩ := by
   decide
+
+/-! ### environment variables → option values (`Environment._set_default_options_from_env`) -/
+
+/-- **independent of the order of environment variables**: the process environment enumerated in any order
+(any permutation of the association list, names unique) gives the same `self.options` and the same
+`self.env_opts`, entry for entry and in the same dict order — for every table, every configuration, every
+pre-existing option dict -/
+theorem setDefaultOptionsFromEnv_env_order_invariant (c : EnvCfg) {env₁ env₂ : EnvMap}
+    (nd : (env₁.map Prod.fst).Nodup) (p : env₁ ~ env₂) (options : OptDict) :
+    setDefaultOptionsFromEnv c env₁ options = setDefaultOptionsFromEnv c env₂ options := by
+  unfold setDefaultOptionsFromEnv
+  congr 1
+  funext k
+  exact lookup_perm nd p k
+
+/-- the function reads the environment through `os.environ.get` only: two environments that answer every
+lookup alike are indistinguishable (extra variables, shadowed duplicates, order) -/
+theorem setDefaultOptionsFromEnv_function_of_map (c : EnvCfg) {env₁ env₂ : EnvMap}
+    (h : ∀ k, env₁.lookup k = env₂.lookup k) (options : OptDict) :
+    setDefaultOptionsFromEnv c env₁ options = setDefaultOptionsFromEnv c env₂ options := by
+  unfold setDefaultOptionsFromEnv
+  congr 1
+  funext k
+  exact h k
+
+/-- **independent of hash randomisation**: `LANGUAGES_USING_LDFLAGS` / `LANGUAGES_USING_CPPFLAGS` are sets; iterated
+in any order they give the same `self.options` (dict order included) and an `env_opts` that answers every
+`.get(key)` alike (only its dict order follows the set order, and nothing iterates it) -/
+theorem setDefaultOptionsFromEnv_set_order_invariant (c : EnvCfg) {ld cpp : List Str}
+    (pl : c.ldLangs ~ ld) (pc : c.cppLangs ~ cpp) (look : Str → Option Str) (options : OptDict) :
+    (setDefaultOptionsFromEnvL c look options).1 = (setDefaultOptionsFromEnvL (c.reorder ld cpp) look options).1 ∧
+    ∀ k, (setDefaultOptionsFromEnvL c look options).2.lookup k
+       = (setDefaultOptionsFromEnvL (c.reorder ld cpp) look options).2.lookup k := by
+  unfold setDefaultOptionsFromEnvL
+  have h := foldl_envStep_congr c pl pc look (withMachines (envOptsTable c)) (DictEq.rfl' [])
+  exact foldl_moveStep_congr (withMachines c.nonLang) options h
+
+/-- on record: the single walk over `os.environ` (variables handled in the order they are met) … -/
+def setDefaultOptionsFromEnvWalk_env_order_invariant_full : Prop :=
+  ∀ (c : EnvCfg) (env₁ env₂ : EnvMap), (env₁.map Prod.fst).Nodup → env₁ ~ env₂ → ∀ options,
+    setDefaultOptionsFromEnvWalk c env₁ options = setDefaultOptionsFromEnvWalk c env₂ options
+
+def envCC : EnvMap := [("CFLAGS".toList, "-DA".toList), ("CPPFLAGS".toList, "-DB".toList)]
+
+/-- … is not a function of the environment map: CFLAGS met before CPPFLAGS gives `c_args = [-DA, -DB]`, met
+after it `[-DB, -DA]` -/
+theorem setDefaultOptionsFromEnvWalk_env_order_invariant_counterexample :
+    ¬ setDefaultOptionsFromEnvWalk_env_order_invariant_full := by
+  intro h
+  have := h liveCfg envCC envCC.reverse (by decide) (Perm.swap _ _ _) []
+  revert this
+  decide +kernel
+
+/-! ### environment → compile / link arguments (`Environment.add_lang_args`) -/
+
+/-- `add_lang_args` reads `env_opts` through `.get` only -/
+theorem addLangArgs_function_of_mapping (pa pl : Option (List Str)) {e₁ e₂ : OptDict}
+    (h : ∀ k, e₁.lookup k = e₂.lookup k) (lang : Str) (m : Nat) (ld : Bool) :
+    addLangArgs pa pl e₁ lang m ld = addLangArgs pa pl e₂ lang m ld := by
+  unfold addLangArgs
+  rw [h, h]
+
+/-- **end to end**: the `<lang>_args` / `<lang>_link_args` taken from CFLAGS-like variables, CPPFLAGS and LDFLAGS are a
+function of the environment *map* and of the language *sets*: neither the order in which the environment
+enumerates its variables nor the iteration order of the two sets reaches them -/
+theorem langArgsFromEnv_order_invariant (c : EnvCfg) {env₁ env₂ : EnvMap} {ld cpp : List Str}
+    (nd : (env₁.map Prod.fst).Nodup) (p : env₁ ~ env₂) (pl : c.ldLangs ~ ld) (pc : c.cppLangs ~ cpp)
+    (lang : Str) (m : Nat) (drv : Bool) :
+    langArgsFromEnv c env₁ lang m drv = langArgsFromEnv (c.reorder ld cpp) env₂ lang m drv := by
+  unfold langArgsFromEnv
+  rw [setDefaultOptionsFromEnv_env_order_invariant c nd p []]
+  exact addLangArgs_function_of_mapping none none
+    (setDefaultOptionsFromEnv_set_order_invariant c pl pc (fun k => env₂.lookup k) []).2 lang m drv
+
+/-- precedence: a pending value (command line, machine file) replaces the environment's, and then the compile
+arguments are *not* added to the link arguments -/
+theorem addLangArgs_pending_overrides_env (v : List Str) (pl : Option (List Str)) (e : OptDict) (lang : Str)
+    (m : Nat) (drv : Bool) :
+    (addLangArgs (some v) pl e lang m drv).1 = v ∧
+    (addLangArgs (some v) pl e lang m drv).2 = (addLangArgs (some v) pl e lang m false).2 := by
+  simp [addLangArgs]
+
+/-- precedence: with nothing pending, a linker driver links with `<lang>_link_args` from the environment followed by
+the compile arguments from the environment -/
+theorem addLangArgs_env_link_gets_compile_args (e : OptDict) (lang : Str) (m : Nat) :
+    (addLangArgs none none e lang m true).2 =
+      (addLangArgs none none e lang m false).2 ++ (addLangArgs none none e lang m true).1 := by
+  simp [addLangArgs]
+
+def envAll : EnvMap :=
+  [("CPPFLAGS".toList, "-DP".toList), ("LDFLAGS".toList, "-L/x".toList), ("CFLAGS".toList, "-O2 -g".toList),
+   ("CXXFLAGS".toList, "-DX".toList), ("PKG_CONFIG_PATH".toList, "/a::/b:/a".toList)]
+
+/-- the live tables: `c_args` = CFLAGS then CPPFLAGS, `c_link_args` = LDFLAGS then CFLAGS then CPPFLAGS — with
+CPPFLAGS and LDFLAGS listed *before* CFLAGS in the environment -/
+example : langArgsFromEnv liveCfg envAll "c".toList 1 true =
+    (["-O2", "-g", "-DP"].map String.toList, ["-L/x", "-O2", "-g", "-DP"].map String.toList) := by decide +kernel
+
+example : langArgsFromEnv liveCfg envAll.reverse "c".toList 1 true = langArgsFromEnv liveCfg envAll "c".toList 1 true :=
+  (langArgsFromEnv_order_invariant liveCfg (ld := liveLdLangs) (cpp := liveCppLangs) (by decide)
+    (reverse_perm envAll).symm (Perm.refl _) (Perm.refl _) _ _ _).symm
+
+/-- PKG_CONFIG_PATH goes to `self.options` (duplicates and empty elements removed) -/
+example : (setDefaultOptionsFromEnv liveCfg envAll []).1 =
+    [(envKey 0 "pkg_config_path".toList, ["/a", "/b"].map String.toList),
+     (envKey 1 "pkg_config_path".toList, ["/a", "/b"].map String.toList)] := by decide +kernel
+
+/-! ### two more emitters that print a set: `build_rpaths` of the install plan, the `depaccumulate` statement -/
+
+theorem installPlanBuildRpaths_perm_invariant {l₁ l₂ : List Str} (p : l₁ ~ l₂) :
+    installPlanBuildRpaths l₁ = installPlanBuildRpaths l₂ := sortedStrs_perm p
+
+/-- the output is a function of the *set*, not of its enumeration -/
+theorem installPlanBuildRpaths_function_of_set {l₁ l₂ : List Str} (n₁ : l₁.Nodup) (n₂ : l₂.Nodup)
+    (h : ∀ x, x ∈ l₁ ↔ x ∈ l₂) : installPlanBuildRpaths l₁ = installPlanBuildRpaths l₂ :=
+  sortedStrs_set_ext n₁ n₂ h
+
+theorem installPlanBuildRpaths_is_perm (l : List Str) : installPlanBuildRpaths l ~ l := sortedStrs_perm_self l
+
+/-- the inputs of the `depaccumulate` statement depend only on the *set* of scan files: not on the order in which
+linked targets are visited, not on the iteration order of the set comprehension, not on repetitions, not on which
+of the two sources contributed a file -/
+theorem depaccumulateInputs_function_of_set (json : Str) {l₁ o₁ l₂ o₂ : List Str}
+    (h : ∀ x, x ∈ l₁ ++ o₁ ↔ x ∈ l₂ ++ o₂) :
+    depaccumulateInputs json l₁ o₁ = depaccumulateInputs json l₂ o₂ := by
+  unfold depaccumulateInputs
+  rw [sortedSet_ext h]
+
+theorem depaccumulateInputs_mem (json : Str) (l o : List Str) (x : Str) :
+    x ∈ depaccumulateInputs json l o ↔ x = json ∨ x ∈ l ∨ x ∈ o := by
+  unfold depaccumulateInputs
+  rw [mem_cons, mem_sortedSet, mem_append]
+
+/-- … and so does the text of the statement in build.ninja -/
+theorem depaccumulateLine_function_of_set (scan json : Str) {l₁ o₁ l₂ o₂ : List Str}
+    (h : ∀ x, x ∈ l₁ ++ o₁ ↔ x ∈ l₂ ++ o₂) :
+    depaccumulateLine scan json l₁ o₁ = depaccumulateLine scan json l₂ o₂ := by
+  unfold depaccumulateLine
+  rw [depaccumulateInputs_function_of_set json h]
+
+example : depaccumulateLine ['s'] ['j'] [['b'], ['a'], ['b']] [['c']] =
+    depaccumulateLine ['s'] ['j'] [['c'], ['a']] [['b'], ['a']] :=
+  depaccumulateLine_function_of_set _ _ (by intro x; simp only [mem_append, mem_cons, not_mem_nil, or_false]; grind)
 
 end MesonModel.Props.C06
